@@ -119,6 +119,38 @@ let run_status ?(masked=false) g0 x0 script ops =
     else head ^ "{" ^ string_of_status !st ^ "}{pub:" ^ string_of_pub !st ^ "}" in
   String.concat ";" (List.map one (String.split_on_char ';' ops))
 
+(* ---- dispatcher schedules ----
+   disp <id> <action>;<action>;...    P<pub> | G<cid>/<ns> | S<cid> | F<cid> | L<cid>     pub = ns~sid:min:max,..|ns~..  ("-" = no namespace)
+     -> after every action all clients sorted by id, "&"-joined ("-" = none): cid/<s|w|e>/<#received>/<last>/<pending>,
+        last, pending = n (none) or =<pub> *)
+let assignment_of_string s : (M.n * M.shard list) list =
+  if s = "-" then [] else
+  List.map (fun p -> match String.split_on_char '~' p with
+    | [ns; l] -> (n_of_string ns, shards_of_string l)
+    | _ -> failwith ("bad pub " ^ p)) (String.split_on_char '|' s)
+let string_of_assignment (a : (M.n * M.shard list) list) =
+  let a = List.sort (fun (x, _) (y, _) -> ncmp x y) a in
+  join_or_dash "|" (List.map (fun (ns, l) -> string_of_n ns ^ "~" ^ string_of_shards (sort_by_id l)) a)
+let run_disp acts =
+  let st = ref M.dinit in
+  let one a =
+    let body = String.sub a 1 (String.length a - 1) in
+    let act = match a.[0] with
+      | 'P' -> M.DPush (assignment_of_string body)
+      | 'G' -> (match String.split_on_char '/' body with
+                | [c; ns] -> M.DRegister (n_of_string c, n_of_string ns) | _ -> failwith "bad G")
+      | 'S' -> M.DSendOk (n_of_string body)
+      | 'F' -> M.DSendFail (n_of_string body)
+      | _ -> M.DLeave (n_of_string body) in
+    st := M.dstep !st act;
+    let cs = List.sort (fun x y -> ncmp x.M.dc_id y.M.dc_id) !st.M.d_clients in
+    join_or_dash "&" (List.map (fun c ->
+      let (ph, pending) = match c.M.dc_phase with
+        | M.Sending m -> ("s", "=" ^ string_of_assignment m) | M.Waiting -> ("w", "n") | M.Ended -> ("e", "n") in
+      let last = match c.M.dc_recv with [] -> "n" | m :: _ -> "=" ^ string_of_assignment m in
+      Printf.sprintf "%s/%s/%d/%s/%s" (string_of_n c.M.dc_id) ph (List.length c.M.dc_recv) last pending) cs) in
+  String.concat ";" (List.map one (String.split_on_char ';' acts))
+
 let () = read_lines (fun line ->
   match String.split_on_char ' ' line with
   | ["gen"; id; base; n] ->
@@ -136,5 +168,7 @@ let () = read_lines (fun line ->
     Printf.printf "%s %s\n" id (run_status g0 x0 script ops)
   | ["coord"; id; g0; x0; script; ops] ->
     Printf.printf "%s %s\n" id (run_status ~masked:true g0 x0 script ops)
+  | ["disp"; id; acts] ->
+    Printf.printf "%s %s\n" id (run_disp acts)
   | [] | [""] -> ()
   | _ -> Printf.printf "?? bad line: %s\n" line)
